@@ -47,7 +47,7 @@ def schedule_of(trace):
         elif actor == "feeder":
             out.append("feeder:main:q0")
         else:
-            if head in ("get", "cb_start", "cb_end", "cb_raise", "exit"):
+            if head in ("get", "cb_start", "cb_end", "cb_raise", "timeout", "timeout-exit", "timeout-retry", "flagcheck-exit", "flagcheck-retry", "readflag"):
                 out.append(actor)
     return out
 
@@ -70,6 +70,11 @@ def replay_trace(stage, n_items, n_workers, trace, fault_key=None):
     res = mpmodel.replay(entry, schedule_of(trace), snapshot=lambda: list(calls))
     res["calls"] = calls
     return res
+
+
+def job_stage(run, stage_name, n_items, n_workers):
+    stage = [s for s in STAGES if s.name == stage_name][0]
+    check_stage(run, stage, n_items, n_workers, run.tier)
 
 
 def check_stage(run, stage, n_items, n_workers, tier):
@@ -100,10 +105,8 @@ def check_stage(run, stage, n_items, n_workers, tier):
         ("never-returns-early", U.exists(lambda s: mpmodel.stage_returned_early(ts, s)),
          "the entry point returns before every item is processed and every worker has exited"),
         ("exactly-once", U.exists(lambda s: z3.Or(*[z3.UGT(s["cnt%d" % i], 1) for i in range(ts.I)])), "an item's callback runs twice"),
-        ("no-deadlock", U.exists(lambda s: z3.And(z3.Not(U.enabled(s)), z3.Not(mpmodel.stage_good_final(ts, s)))),
-         "the stage deadlocks (no process can move) before completing"),
-        ("terminates", z3.Or(z3.Not(mpmodel.stage_good_final(ts, U.final())), U.enabled(U.final())),
-         "after the complete step bound the stage has not reached its terminal state"),
+        ("no-deadlock", U.exists(lambda s: z3.And(z3.Not(U.enabled(s, progress_only=True)), z3.Not(mpmodel.stage_good_final(ts, s)))),
+         "the stage gets stuck (no process can make progress) before completing"),
     ]
     for qn, bad, what in queries:
         r, m, dt = U.check(bad)
@@ -118,7 +121,7 @@ def check_stage(run, stage, n_items, n_workers, tier):
             dup = len(obs["calls"]) - len(set(map(repr, obs["calls"])))
             stuck = obs["drive"][0] == "stuck" or not (obs.get("returned") or obs.get("raised"))
             not_exited = [p for p in obs.get("procs_at_return", obs["procs"]) if not p[1]]
-            reproduced = (obs.get("returned") and (missing > 0 or not_exited)) or dup > 0 or (qn in ("no-deadlock", "terminates") and stuck)
+            reproduced = (obs.get("returned") and (missing > 0 or not_exited)) or dup > 0 or (qn == "no-deadlock" and stuck)
             if reproduced:
                 text = ("# schedule found by the solver, replayed on the real %s with a deterministic thread scheduler\n"
                         "import sys\nsys.path.insert(0, %r)\nimport props.C03 as P\nfrom props.stages import STAGES\n"
@@ -157,10 +160,6 @@ def check(run):
                "pipe order is not modelled (any queued item may be received next): over-approximation, sound for these properties", "weak fairness (a process that stays enabled eventually moves)")
     run.outside("the real multiprocessing implementation / OS scheduler", "more items / workers than the bound")
     stages = [s for s in STAGES if not getattr(run, "only", None) or any(o in s.name for o in run.only)]
-    for st in stages:
-        for n_items in st.item_counts[run.tier]:
-            for w in WORKERS[run.tier]:
-                try:
-                    check_stage(run, st, n_items, w, run.tier)
-                except HarnessError as e:
-                    run.error("%s[I=%d,W=%d]" % (st.name, n_items, w), e)
+    from vlib.core import run_parallel
+    jobs = [(st.name, n_items, w) for st in stages for n_items in st.item_counts[run.tier] for w in WORKERS[run.tier]]
+    run_parallel(run, __name__, "job_stage", jobs)
